@@ -239,7 +239,30 @@ fn update(cx: &CaseCtx, rep: &mut Report, rng: &mut Rng) {
 	let set = &sets[0];
 	rep.count("tiles_with_tables_beyond_16384_entries", set.layers.values().filter(|l| imvt::has_wide_table(l)).count() as u64);
 	let mut csv = gen_csv(rng);
-	if std::fs::write(dir.join("data.csv"), &csv.text).is_err() {
+	// now and then the data file is a named pipe whose writer delivers the table in two bursts (a table piped in
+	// from another program): a read that returns less than was asked for is not the end of the file
+	let piped = !cx.tier.is_tiny() && rng.chance(0.12);
+	let mut pipe_writer: Option<std::thread::JoinHandle<()>> = None;
+	if piped {
+		let fifo = dir.join("data.csv");
+		let c = std::ffi::CString::new(fifo.to_str().unwrap()).unwrap();
+		// SAFETY: plain libc call with a valid C string
+		if unsafe { libc::mkfifo(c.as_ptr(), 0o600) } != 0 {
+			rep.inconclusive("cannot create the named pipe");
+			return;
+		}
+		let text = csv.text.clone();
+		pipe_writer = Some(std::thread::spawn(move || {
+			use std::io::Write;
+			let Ok(mut f) = std::fs::OpenOptions::new().write(true).open(&fifo) else { return };
+			let cut = text[..text.len() / 2].rfind('\n').map(|i| i + 1).unwrap_or(text.len() / 2);
+			let _ = f.write_all(text[..cut].as_bytes());
+			let _ = f.flush();
+			std::thread::sleep(std::time::Duration::from_millis(300));
+			let _ = f.write_all(text[cut..].as_bytes());
+		}));
+		rep.count("update_cases_with_the_table_from_a_named_pipe", 1);
+	} else if std::fs::write(dir.join("data.csv"), &csv.text).is_err() {
 		rep.inconclusive("cannot write the CSV fixture");
 		return;
 	}
@@ -251,7 +274,7 @@ fn update(cx: &CaseCtx, rep: &mut Report, rng: &mut Rng) {
 	// generation 1: the data file is rewritten under the same name with other values of exactly the same byte
 	// length (same ids, value cells moved to the next row) and the pipeline is built again in this process — the
 	// join has to follow the file as it is when the pipeline is built
-	let generations = if cx.tier.is_tiny() { 1 } else { 2 };
+	let generations = if cx.tier.is_tiny() || piped { 1 } else { 2 };
 	for generation in 0..generations {
 	if generation == 1 {
 		let Some(c2) = crate::mvtsrc::csv_second_generation(&csv) else { break };
@@ -275,6 +298,12 @@ fn update(cx: &CaseCtx, rep: &mut Report, rng: &mut Rng) {
 		}
 		Ok(Ok(x)) => x,
 	};
+	if let Some(h) = pipe_writer.take() {
+		// (if nobody opened the pipe for reading the writer still waits in open(): let it through)
+		use std::os::unix::fs::OpenOptionsExt;
+		let _unblock = std::fs::OpenOptions::new().read(true).custom_flags(libc::O_NONBLOCK).open(dir.join("data.csv"));
+		let _ = h.join();
+	}
 	let declared = crate::comp::Comp::from_core(reader.get_parameters().tile_compression);
 	let mut check = |k: &Key, data: &[u8], path: &str, rep: &mut Report| {
 		rep.eval();
